@@ -5,9 +5,9 @@ package olareg
 // Scheduler hook for C11 (added to the tree under test by `go build -overlay` as <REPO>/verif_sched.go; nothing is
 // written to the repository).  Every store action of a request that carries a thread id in its context passes a gate
 // before it runs, so a controller in the harness can let exactly one request goroutine run from one gate to the next.
-// The sync.Mutex fields of package olareg are rewritten to VerifMutex by the same overlay (vlib/p_conc.py), so taking
-// a handler-level mutex is a gate too and the controller knows who holds it: a request parked in front of a held mutex
-// is "blocked", never a deadlock of the harness.
+// The sync.Mutex and sync.RWMutex fields of package olareg are rewritten to VerifMutex and VerifRWMutex by the same
+// overlay (vlib/p_conc.py), so taking a handler-level lock is a gate too and the controller knows who holds it: a
+// request parked in front of a held lock is "blocked", never a deadlock of the harness.
 import (
 	"context"
 	"io"
@@ -99,24 +99,26 @@ func (vr *verifRepo) Done() {
 	vr.gate(vr.tid, "-Done", vr.name)
 }
 
-// VerifMutex replaces sync.Mutex in package olareg under this overlay.  With VerifLockHook unset it is a plain mutex.
+// VerifMutex and VerifRWMutex replace sync.Mutex and sync.RWMutex in package olareg under this overlay.  With
+// VerifLockHook unset they are the plain locks.
 type VerifMutex struct{ mu sync.Mutex }
+type VerifRWMutex struct{ mu sync.RWMutex }
 
-// VerifLockHook is called by the goroutine that locks ("lock", before it blocks) or has unlocked ("unlock") a VerifMutex.
-var VerifLockHook func(ev string, m *VerifMutex)
+// VerifLockHook is called by the goroutine that is about to take a lock ("lock", "rlock": before it blocks) or has
+// released one ("unlock", "runlock"); m identifies the lock.
+var VerifLockHook func(ev string, m any)
 
-func (m *VerifMutex) Lock() {
+func verifHook(ev string, m any) {
 	if h := VerifLockHook; h != nil {
-		h("lock", m)
-	}
-	m.mu.Lock()
-}
-
-func (m *VerifMutex) Unlock() {
-	m.mu.Unlock()
-	if h := VerifLockHook; h != nil {
-		h("unlock", m)
+		h(ev, m)
 	}
 }
 
+func (m *VerifMutex) Lock()         { verifHook("lock", m); m.mu.Lock() }
+func (m *VerifMutex) Unlock()       { m.mu.Unlock(); verifHook("unlock", m) }
 func (m *VerifMutex) TryLock() bool { return m.mu.TryLock() }
+
+func (m *VerifRWMutex) Lock()    { verifHook("lock", m); m.mu.Lock() }
+func (m *VerifRWMutex) Unlock()  { m.mu.Unlock(); verifHook("unlock", m) }
+func (m *VerifRWMutex) RLock()   { verifHook("rlock", m); m.mu.RLock() }
+func (m *VerifRWMutex) RUnlock() { m.mu.RUnlock(); verifHook("runlock", m) }
